@@ -1,3 +1,5 @@
 //! Seeded workload generators (pure functions of their parameters).
 pub mod bytes;
 pub mod sam;
+pub mod vcf;
+pub mod text;
